@@ -8,8 +8,9 @@ Tie of `Model/Grammar.lean` (the theorems of Properties/C01.lean are about it) t
 * correspondence `ptdriver grammar` vs `periodictable.formula(str, table=…)` on
   (0) every nameable atom and its invalid neighbours (exhaustive), (1) strings rendered from random
   canonical derivations, (2) one malformation from the fixed list applied to such a string,
-  (3) nasty / byte-mutated strings; public table and a private table with altered isotope / ion
-  lists; compared: accepted / rejected, nested structure with exact counts, density tag.
+  (3) nasty / byte-mutated strings, (4) every string of length <= 3 (thorough: <= 4) over a
+  19-character alphabet that covers every token class; public table and a private table with altered
+  isotope / ion lists (the other table's grammar is used in between); compared: accepted / rejected, nested structure with exact counts, density tag.
 
 Direct oracle (no pyparsing, no model): the documented reading of the derivation that produced the
 string (Fractions: a count multiplies its group, repeated atoms add; charge; density) and
@@ -462,6 +463,24 @@ def run_chunk(run: Run, tname, n_acc, n_mal, n_nasty, maxdepth, sweep):
     run.dist["%s:mixture-escape(skipped)" % tname] = ck.mixture_escapes
 
 
+SMALL_ALPHABET = "HeO20.()[]{}+-@ n1D"
+
+
+def run_small_scope(run: Run, tname, length, part, nparts):
+    """every string of exactly `length` characters over a small alphabet that exercises every token
+    class (bounded-exhaustive model validation; slice `part` of `nparts`)"""
+    import itertools
+    ref, tbl, prefix = tables(tname)
+    ck = Checker(run, tname, ref, tbl, prefix)
+    cases = []
+    for i, t in enumerate(itertools.product(SMALL_ALPHABET, repeat=length)):
+        if i % nparts == part:
+            cases.append(("sweep", "".join(t), None, None))
+    for i in range(0, len(cases), 20000):
+        ck.check(cases[i:i + 20000])
+    run.dist["small-scope:length%d" % length] = run.dist.get("small-scope:length%d" % length, 0) + len(cases)
+
+
 def table_sweep(run: Run, ref, pt):
     """translator = Lean table = runtime table, entry by entry"""
     lean = G.parse_dump(G.driver(["tblgen", "tbldump"])[1])
@@ -486,9 +505,12 @@ def run(run: Run) -> int:
     if quick:
         tasks = [(run_chunk, ("public", 550, 225, 375, 4, "sample" if i == 0 else None)) for i in range(4)]
         tasks += [(run_chunk, ("private", 275, 110, 190, 4, "sample" if i == 0 else None)) for i in range(2)]
+        tasks += [(run_small_scope, ("public", n, 0, 1)) for n in (1, 2, 3)]
     else:
         tasks = [(run_chunk, ("public", 5000, 2000, 4000, 4 + i % 4, "full" if i == 0 else None)) for i in range(60)]
         tasks += [(run_chunk, ("private", 4000, 1600, 3000, 4 + i % 3, "full" if i == 0 else None)) for i in range(16)]
+        tasks += [(run_small_scope, ("public", n, 0, 1)) for n in (1, 2, 3)]
+        tasks += [(run_small_scope, ("public", 4, i, 8)) for i in range(8)]
     G.run_chunks(run, tasks)
     run.exhaustive = False
     return run.finish(RULE, assumptions=[
